@@ -156,6 +156,8 @@ def _forking_main(conn_pipe, kind_kwargs, auth, socket_path):
                 return
             elif msg == "alive":
                 conn_pipe.send(("alive", srv.active))
+            elif msg == "fds":
+                conn_pipe.send(("fds", len(os.listdir("/proc/self/fd"))))
             elif msg == "exit":
                 os._exit(0)
     t = threading.Thread(target=control)
@@ -277,6 +279,13 @@ class Fixture(object):
             return None
         except Exception as ex:
             return repr(ex)
+
+    def helper_fds(self):
+        """number of open descriptors in the forking server's parent process"""
+        self.pipe.send("fds")
+        if not self.pipe.poll(BOUND):
+            return None
+        return self.pipe.recv()[1]
 
     def accepting(self):
         """can a fresh good client connect and complete a call?"""
